@@ -122,7 +122,7 @@ func genC11File(r *simrt.Rand, rid *int64, seq *int, pols []C11Policy, ats []int
 
 func genC11(r *simrt.Rand, tier string) any {
 	p := &C11Plan{}
-	p.Knobs = PodKnobs{HourlyMinFiles: 2 + r.Intn(2), MaxFilesPerBatch: []int{3, 30}[r.Intn(2)], MaxConcurrent: 1 + r.Intn(2), Daily: r.Chance(40), DailyMinFiles: 2}
+	p.Knobs = PodKnobs{HourlyMinFiles: 2 + r.Intn(2), MaxFilesPerBatch: []int{3, 30}[r.Intn(2)], MaxConcurrent: 1 + r.Intn(2), Daily: r.Chance(40), DailyMinFiles: 2, ObjStore: r.Chance(35)}
 	np := 1 + r.Intn(3)
 	for i := 0; i < np; i++ {
 		pol := C11Policy{DB: []string{"db", "db", "db2"}[r.Intn(3)], RetDays: []int{2, 7, 30}[r.Intn(3)], BufDays: []int{0, 1}[r.Intn(2)]}
@@ -220,6 +220,19 @@ type c11world struct {
 	out  *simkit.Outcome
 	rows map[string][]rowAt // rel path -> rows (cache; files are immutable)
 	nSeq int
+	// target is the planned instant of the current operation
+	target time.Time
+}
+
+// alignTo moves the clock to exactly the planned instant (when it is still in
+// the future) and returns the instant the handler will read: no scheduling
+// point lies between this call and the handler's own time.Now().
+func (w *c11world) alignTo() time.Time {
+	if d := w.target.Sub(simrt.Now()); d > 0 {
+		simrt.AdvanceClock(d)
+		simrt.Count("probe.exec_exactly_at_planned_instant", 1)
+	}
+	return simrt.Now()
 }
 
 type rowAt struct {
@@ -264,7 +277,7 @@ func (w *c11world) boot() {
 	if w.rh != nil {
 		w.rh.Close() // release the dead process's SQLite handle
 	}
-	rh, err := api.NewRetentionHandler(w.pd.local, c11DuckDB(), &config.RetentionConfig{Enabled: true, DBPath: filepath.Join(w.pd.root, "meta", "retention.db")}, nil, nil, harnessLogger())
+	rh, err := api.NewRetentionHandler(w.pd.backend, c11DuckDB(), &config.RetentionConfig{Enabled: true, DBPath: filepath.Join(w.pd.root, "meta", "retention.db")}, nil, nil, harnessLogger())
 	if err != nil {
 		panic(fmt.Sprintf("NewRetentionHandler: %v", err))
 	}
@@ -363,12 +376,25 @@ func runC11(planAny any, cfg simrt.Config) *simkit.Outcome {
 		return out
 	}
 	c11DuckDB()
+	if p.Knobs.ObjStore {
+		out.Stats["probe.object_store_facade_runs"]++
+	}
 	root := filepath.Join(c11Base, fmt.Sprintf("run%d", scratchSeq.Add(1)))
 	os.MkdirAll(root, 0o755)
 	defer os.RemoveAll(root)
 	w := &c11world{p: p, cfg: cfg, out: out, rows: map[string][]rowAt{}}
 	start := time.Unix(0, cfg.EpochNs).UTC()
 	w.r0 = start.Add(time.Hour).Truncate(time.Microsecond)
+	if p.Knobs.ObjStore {
+		// the handler addresses files of a non-local backend by their key; the
+		// query engine then resolves them against the working directory
+		cwd, _ := os.Getwd()
+		os.MkdirAll(filepath.Join(root, "data"), 0o755)
+		if err := os.Chdir(filepath.Join(root, "data")); err != nil {
+			harnessFatal("chdir: %v", err)
+		}
+		defer os.Chdir(cwd)
+	}
 	res := simrt.Run(cfg, func() {
 		simrt.SetPathRoot(root)
 		w.pd = newPod(root, p.Knobs)
@@ -422,11 +448,14 @@ func runC11(planAny any, cfg simrt.Config) *simkit.Outcome {
 		}
 		for oi := range p.Ops {
 			op := &p.Ops[oi]
+			// coarse advance here; the exact alignment to the planned instant
+			// happens inside the calling task, right before the call (alignTo)
 			target := w.r0.Add(time.Duration(op.AtS) * time.Second)
-			if d := target.Sub(simrt.Now()); d > 0 {
+			w.target = target
+			if d := target.Add(-time.Second).Sub(simrt.Now()); d > 0 {
 				simrt.AdvanceClock(d)
 			}
-			onTime := simrt.Now().Equal(target)
+			onTime := true
 			pol := p.Policies[op.Policy%len(p.Policies)]
 			pid := w.ids[op.Policy%len(p.Policies)]
 			switch op.Kind {
@@ -477,7 +506,7 @@ func (w *c11world) dryRun(op *C11Op, pol C11Policy, pid int64, ensure func(), on
 		ensure()
 		snap = w.snapshot()
 		before = treeHash(w.pd.dataDir)
-		callAt = simrt.Now()
+		callAt = w.alignTo()
 		st, rb = w.request("POST", fmt.Sprintf("/api/v1/retention/%d/execute", pid), map[string]any{"dry_run": true, "confirm": false})
 		after = treeHash(w.pd.dataDir)
 	})
@@ -586,10 +615,10 @@ func (w *c11world) judgeReal(pol C11Policy, before, after map[string][]rowAt, cu
 		sfx = ".under-" + fault
 	}
 	if len(young) > 0 {
-		eq := ""
+		eq := ".timestamp-equal-to-cutoff" // only when every such row sits exactly on the cutoff
 		for _, l := range young {
-			if l.r.us == cu && cutoff.Nanosecond()%1000 == 0 {
-				eq = ".timestamp-equal-to-cutoff"
+			if l.r.us != cu || cutoff.Nanosecond()%1000 != 0 {
+				eq = ""
 			}
 		}
 		out.Violate("C11.row-at-or-after-cutoff-deleted"+eq+sfx, "%s, policy %+v, cutoff %s: %d rows with ts >= cutoff are gone, e.g. %s from %s", what, pol, cutoff.Format(time.RFC3339Nano), len(young), young[0].r.c, young[0].rel)
@@ -692,7 +721,7 @@ func (w *c11world) realRun(op *C11Op, pol C11Policy, pid int64, ensure func(), o
 		})
 	}
 	h := simrt.GoOn("retention", pd.sn, func() {
-		callAt = simrt.Now()
+		callAt = w.alignTo()
 		if op.Kind == "sched" {
 			_, serr = w.rh.ExecutePolicy(context.Background(), pid)
 			if serr == nil {
